@@ -293,3 +293,599 @@ Lemma discard_stream_fields p :
   sst (discard_stream p) = sst p /\ parsed_start (discard_stream p) = 0 /\ gap_start (discard_stream p) = 0 /\
   raw_start (discard_stream p) = 0.
 Proof. unfold discard_stream, compress, upd_idx. cbn [output output_start sreq stream payload_rem padding_rem sst parsed_start gap_start raw_start]. repeat split. Qed.
+
+(* ------------------------------------------------------------------------------------------ *)
+(* Part 2: the loop-local simulation (parse_payload, parse_head, parse_iter, parse_loop)        *)
+(* ------------------------------------------------------------------------------------------ *)
+
+Definition raw_len (p : sp) : N := free_start p - raw_start p.
+
+(* no active stream, or an input-stream type: then cmp_input_streams never hits its debug_assert *)
+Definition stream_ok (p : sp) : Prop :=
+  match stream p with None => True | Some e => is_input_stream e = true end.
+
+Section Sim.
+Variable maxc : N.
+
+Definition absl (l : lstate) : alstate := mkAL (abs (lp l)) (lres l) (lcap l).
+Definition absflow (f : cflow) : aflow :=
+  match f with
+  | CContinue l => AContinue (absl l)
+  | CBreak l => ABreak (absl l)
+  | CErr l e => AErr (absl l) e
+  | CPanic n => APanic n
+  end.
+
+(* the local closure [fin] of parse_payload / aparse_payload, as top-level functions *)
+Definition pfin (p p' : sp) (res : status) (cap' : option N) (consumed : N) : cflow :=
+  let raw_len := free_start p - raw_start p in
+  let payload_len := N.min (payload_rem p) raw_len in
+  if payload_len <? consumed then CPanic 20 else
+  let p'' := set_core p' (raw_start p + consumed) (payload_rem p - consumed) (padding_rem p') (sst p')
+                      (output p') (gap_start p') (buffer p') in
+  if negb (invars_ok p'') then CPanic 21 else
+  let l' := mkL p'' res cap' in
+  if (payload_rem p'' =? 0) && (consumed <? raw_len) then CContinue l' else CBreak l'.
+
+Definition apfin (a a' : ast) (res : status) (cap' : option N) (consumed : N) : aflow :=
+  let raw_len := len (a_raw a) in
+  let payload_len := N.min (a_prem a) raw_len in
+  if payload_len <? consumed then APanic 20 else
+  let a'' := a_set a' (a_parsed a') (drop consumed (a_raw a)) (a_out a') (a_prem a - consumed) (a_pad a') (a_st a') in
+  let l' := mkAL a'' res cap' in
+  if (a_prem a'' =? 0) && (consumed <? raw_len) then AContinue l' else ABreak l'.
+
+Lemma parse_payload_unfold l :
+  parse_payload maxc l =
+  let p := lp l in
+  let raw_len := free_start p - raw_start p in
+  let payload_len := N.min (payload_rem p) raw_len in
+  let payload := slice (raw_start p) (raw_start p + payload_len) (buffer p) in
+  match sst p with
+  | SStream =>
+    match lcap l with
+    | Some c =>
+      let n := N.min c payload_len in
+      pfin p p (mkStatus (s_stream (lres l) + n) (s_end (lres l)) (s_output (lres l)) (s_dest (lres l) ++ take n payload))
+          (Some (c - n)) n
+    | None =>
+      let b' := copy_within (buffer p) (raw_start p) (raw_start p + payload_len) (gap_start p) in
+      let p' := set_core p (raw_start p) (payload_rem p) (padding_rem p) (sst p) (output p)
+                         (gap_start p + payload_len) b' in
+      pfin p p' (mkStatus (s_stream (lres l) + payload_len) (s_end (lres l)) (s_output (lres l)) (s_dest (lres l)))
+          None payload_len
+    end
+  | SSkip => pfin p p (lres l) (lcap l) payload_len
+  | SValues vars =>
+    let '(ps, rest) := nv_run payload in
+    let vars' := vars_of_pairs vars ps in
+    if raw_len <? payload_rem p then
+      pfin p (set_core p (raw_start p) (payload_rem p) (padding_rem p) (SValues vars') (output p) (gap_start p) (buffer p))
+          (lres l) (lcap l) (payload_len - len rest)
+    else
+      let w := write_response vars' maxc in
+      pfin p (set_core p (raw_start p) (payload_rem p) (padding_rem p) (SValues vars') (output p ++ w) (gap_start p) (buffer p))
+          (mkStatus (s_stream (lres l)) (s_end (lres l)) (s_output (lres l) + len w) (s_dest (lres l)))
+          (lcap l) payload_len
+  end.
+Proof. reflexivity. Qed.
+
+Lemma aparse_payload_unfold l :
+  aparse_payload maxc l =
+  let a := al l in
+  let raw_len := len (a_raw a) in
+  let payload_len := N.min (a_prem a) raw_len in
+  let payload := take payload_len (a_raw a) in
+  match a_st a with
+  | SStream =>
+    match acap l with
+    | Some c => let n := N.min c payload_len in apfin a a (add_stream (ares l) n (take n payload)) (Some (c - n)) n
+    | None => apfin a (a_set a (a_parsed a ++ payload) (a_raw a) (a_out a) (a_prem a) (a_pad a) (a_st a))
+                  (add_stream (ares l) payload_len []) None payload_len
+    end
+  | SSkip => apfin a a (ares l) (acap l) payload_len
+  | SValues vars =>
+    let '(ps, rest) := nv_run payload in
+    let vars' := vars_of_pairs vars ps in
+    if raw_len <? a_prem a then
+      apfin a (a_set a (a_parsed a) (a_raw a) (a_out a) (a_prem a) (a_pad a) (SValues vars')) (ares l) (acap l) (payload_len - len rest)
+    else
+      let w := write_response vars' maxc in
+      apfin a (a_set a (a_parsed a) (a_raw a) (a_out a ++ w) (a_prem a) (a_pad a) (SValues vars'))
+          (add_output (ares l) (len w)) (acap l) payload_len
+  end.
+Proof. reflexivity. Qed.
+
+(* how the intermediate parser [p'] handed to [fin] may differ from the parser [p] at entry *)
+Record pframe (p p' : sp) (consumed : N) : Prop := mkPframe {
+  pf_ps : parsed_start p' = parsed_start p;
+  pf_fs : free_start p' = free_start p;
+  pf_gs1 : parsed_start p' <= gap_start p';
+  pf_gs2 : gap_start p' <= raw_start p + consumed;
+  pf_len : len (buffer p') = len (buffer p);
+  pf_os : output_start p' = output_start p;
+  pf_out : exists w, output p' = output p ++ w;
+  pf_stream : stream p' = stream p;
+  pf_raw : slice (raw_start p + consumed) (free_start p) (buffer p') =
+           slice (raw_start p + consumed) (free_start p) (buffer p)
+}.
+
+(* [a'] describes [p'] in everything but the raw bytes and payload_rem (which fin overwrites) *)
+Record absim (a' : ast) (p' : sp) : Prop := mkAbsim {
+  as_B : a_B a' = len (buffer p');
+  as_space : a_space a' = len (buffer p') - free_start p';
+  as_parsed : a_parsed a' = stream_buffer p';
+  as_out : a_out a' = output_buffer p';
+  as_req : a_req a' = sreq p';
+  as_stream : a_stream a' = stream p';
+  as_pad : a_pad a' = padding_rem p';
+  as_st : a_st a' = sst p'
+}.
+
+Lemma absim_abs p : absim (abs p) p.
+Proof. constructor; reflexivity. Qed.
+
+Lemma pframe_refl p consumed : RI p -> pframe p p consumed.
+Proof.
+  intros (H1 & H2 & H3 & H4 & H5). constructor; try reflexivity; try lia.
+  exists []. symmetry. apply app_nil_r.
+Qed.
+
+Lemma RI_output_app (out w : bytes) os :
+  os <= len out -> (os = len out -> out = []) ->
+  os <= len (out ++ w) /\ (os = len (out ++ w) -> out ++ w = []).
+Proof.
+  intros H1 H2. rewrite len_app. split; [lia|]. intros E.
+  assert (Hw : len w = 0) by lia. apply len_zero_nil in Hw. subst w.
+  rewrite app_nil_r. apply H2. lia.
+Qed.
+
+(* what parse_payload guarantees besides the simulation *)
+Definition payload_post (p : sp) (f : cflow) : Prop :=
+  match f with
+  | CContinue l' => RI (lp l') /\ raw_len (lp l') <= raw_len p /\ stream (lp l') = stream p /\
+                    payload_rem (lp l') = 0
+  | CBreak l' => RI (lp l') /\ stream (lp l') = stream p
+  | _ => False
+  end.
+
+Lemma pfin_sim p p' a' res cap consumed :
+  RI p -> consumed <= N.min (payload_rem p) (free_start p - raw_start p) ->
+  pframe p p' consumed -> absim a' p' ->
+  apfin (abs p) a' res cap consumed = absflow (pfin p p' res cap consumed) /\
+  payload_post p (pfin p p' res cap consumed).
+Proof.
+  intros HRI Hc F S. pose proof HRI as (H1 & H2 & H3 & H4 & H5 & H6).
+  destruct F as [F1 F2 F3 F4 F5 F6 [w F7] F8 F9]. destruct S as [S1 S2 S3 S4 S5 S6 S7 S8].
+  unfold pfin, apfin. cbn [abs a_prem a_raw]. rewrite (RI_len_raw p HRI).
+  destruct (N.ltb_spec (N.min (payload_rem p) (free_start p - raw_start p)) consumed) as [Hx|_]; [lia|].
+  set (p'' := set_core p' (raw_start p + consumed) (payload_rem p - consumed) (padding_rem p') (sst p')
+                       (output p') (gap_start p') (buffer p')).
+  assert (R'' : RI p'').
+  { subst p''. unfold RI, set_core.
+    cbn [buffer parsed_start gap_start raw_start free_start output output_start].
+    rewrite F6, F7. destruct (RI_output_app (output p) w (output_start p) H5 H6) as [O1 O2].
+    repeat split; try lia. exact O2. }
+  rewrite (RI_invars_ok p'' R''). cbn [negb].
+  assert (A'' : abs p'' = a_set a' (a_parsed a') (drop consumed (slice (raw_start p) (free_start p) (buffer p)))
+                            (a_out a') (payload_rem p - consumed) (a_pad a') (a_st a')).
+  { subst p''. unfold abs, a_set, set_core, stream_buffer, raw_bytes, output_buffer.
+    cbn [buffer parsed_start gap_start raw_start free_start output output_start sreq stream payload_rem padding_rem sst].
+    rewrite S1, S2, S3, S4, S5, S6, S7, S8, F2, drop_slice, F9. reflexivity. }
+  unfold raw_bytes.
+  replace (payload_rem p'') with (payload_rem p - consumed) by reflexivity.
+  unfold a_set at 1. cbn [a_prem].
+  destruct ((payload_rem p - consumed =? 0) && (consumed <? free_start p - raw_start p)) eqn:Econd;
+    unfold absflow, absl; cbn [lp lres lcap]; rewrite A''; (split; [reflexivity|]); unfold payload_post; cbn [lp].
+  - split; [exact R''|]. split; [|split].
+    + subst p''. unfold raw_len, set_core. cbn [free_start raw_start]. lia.
+    + subst p''. unfold set_core. cbn [stream]. exact F8.
+    + subst p''. unfold set_core. cbn [payload_rem]. lia.
+  - split; [exact R''|]. subst p''. unfold set_core. cbn [stream]. exact F8.
+Qed.
+
+(* p' = p with another sst and an extended output: frame and abstraction *)
+Lemma pframe_core p consumed st out' w : RI p -> out' = output p ++ w ->
+  pframe p (set_core p (raw_start p) (payload_rem p) (padding_rem p) st out' (gap_start p) (buffer p)) consumed.
+Proof.
+  intros (H1 & H2 & H3 & H4 & H5) E. unfold set_core.
+  constructor; cbn [buffer parsed_start gap_start raw_start free_start output output_start stream];
+    try reflexivity; try lia.
+  exists w. exact E.
+Qed.
+
+Lemma absim_core p st out' w : RI p -> out' = output p ++ w ->
+  absim (a_set (abs p) (a_parsed (abs p)) (a_raw (abs p)) (a_out (abs p) ++ w) (a_prem (abs p)) (a_pad (abs p)) st)
+        (set_core p (raw_start p) (payload_rem p) (padding_rem p) st out' (gap_start p) (buffer p)).
+Proof.
+  intros (H1 & H2 & H3 & H4 & H5 & H6) E. unfold set_core, a_set, abs.
+  constructor; cbn [a_B a_space a_parsed a_raw a_out a_req a_stream a_prem a_pad a_st]; try reflexivity.
+  unfold output_buffer. cbn [output output_start]. rewrite E, drop_app_le by lia. reflexivity.
+Qed.
+
+(* the internal-buffer case: payload copied from [raw_start, raw_start+n) to gap_start (may overlap) *)
+Lemma pframe_copy p n : RI p -> n <= free_start p - raw_start p ->
+  pframe p (set_core p (raw_start p) (payload_rem p) (padding_rem p) (sst p) (output p) (gap_start p + n)
+                     (copy_within (buffer p) (raw_start p) (raw_start p + n) (gap_start p))) n.
+Proof.
+  intros (H1 & H2 & H3 & H4 & H5) Hn. unfold set_core.
+  constructor; cbn [buffer parsed_start gap_start raw_start free_start output output_start stream];
+    try reflexivity; try lia.
+  - apply len_copy_within; lia.
+  - exists []. symmetry. apply app_nil_r.
+  - apply (slice_eq_drop (gap_start p + (raw_start p + n - raw_start p))); [lia|].
+    apply drop_copy_within; lia.
+Qed.
+
+Lemma absim_copy p n : RI p -> n <= free_start p - raw_start p ->
+  absim (a_set (abs p) (a_parsed (abs p) ++ slice (raw_start p) (raw_start p + n) (buffer p)) (a_raw (abs p))
+               (a_out (abs p)) (a_prem (abs p)) (a_pad (abs p)) (a_st (abs p)))
+        (set_core p (raw_start p) (payload_rem p) (padding_rem p) (sst p) (output p) (gap_start p + n)
+                  (copy_within (buffer p) (raw_start p) (raw_start p + n) (gap_start p))).
+Proof.
+  intros (H1 & H2 & H3 & H4 & H5) Hn. unfold set_core, a_set, abs.
+  assert (L : len (copy_within (buffer p) (raw_start p) (raw_start p + n) (gap_start p)) = len (buffer p))
+    by (apply len_copy_within; lia).
+  constructor; cbn [a_B a_space a_parsed a_raw a_out a_req a_stream a_prem a_pad a_st];
+    cbn [buffer free_start]; rewrite ?L; try reflexivity.
+  unfold stream_buffer. cbn [buffer parsed_start gap_start].
+  rewrite (slice_split (parsed_start p) (gap_start p) (gap_start p + n)) by lia. f_equal.
+  - apply (slice_eq_take (gap_start p)); [lia|]. symmetry. apply take_copy_within; lia.
+  - symmetry. replace (gap_start p + n) with (gap_start p + (raw_start p + n - raw_start p)) by lia.
+    apply slice_copy_within; lia.
+Qed.
+
+Lemma parse_payload_sim l : RI (lp l) ->
+  aparse_payload maxc (absl l) = absflow (parse_payload maxc l) /\ payload_post (lp l) (parse_payload maxc l).
+Proof.
+  intros HRI. rewrite parse_payload_unfold, aparse_payload_unfold.
+  unfold absl. cbn [al ares acap]. set (p := lp l) in *. cbn zeta.
+  pose proof HRI as (H1 & H2 & H3 & H4 & H5 & H6).
+  change (a_st (abs p)) with (sst p). change (a_prem (abs p)) with (payload_rem p).
+  change (a_raw (abs p)) with (raw_bytes p). rewrite (RI_len_raw p HRI).
+  set (pl := N.min (payload_rem p) (free_start p - raw_start p)).
+  assert (EP : take pl (raw_bytes p) = slice (raw_start p) (raw_start p + pl) (buffer p)).
+  { unfold raw_bytes. apply take_slice. subst pl. lia. }
+  rewrite EP.
+  destruct (sst p) eqn:Est.
+  - destruct (lcap l) as [c|].
+    + unfold add_stream. apply pfin_sim; [exact HRI|fold pl; lia|apply pframe_refl; exact HRI|apply absim_abs].
+    + unfold add_stream. rewrite app_nil_r. rewrite <- Est.
+      apply pfin_sim; [exact HRI|fold pl; lia| |].
+      * apply pframe_copy; [exact HRI|subst pl; lia].
+      * apply absim_copy; [exact HRI|subst pl; lia].
+  - apply pfin_sim; [exact HRI|fold pl; lia|apply pframe_refl; exact HRI|apply absim_abs].
+  - destruct (nv_run (slice (raw_start p) (raw_start p + pl) (buffer p))) as [ps rest].
+    destruct (free_start p - raw_start p <? payload_rem p).
+    + apply pfin_sim; [exact HRI|fold pl; lia| |].
+      * apply (pframe_core p _ _ _ []); [exact HRI|symmetry; apply app_nil_r].
+      * rewrite <- (app_nil_r (a_out (abs p))).
+        apply (absim_core p _ _ []); [exact HRI|symmetry; apply app_nil_r].
+    + unfold add_output. apply pfin_sim; [exact HRI|fold pl; lia| |].
+      * apply (pframe_core p _ _ _ (write_response (vars_of_pairs vars ps) maxc)); [exact HRI|reflexivity].
+      * apply (absim_core p _ _ (write_response (vars_of_pairs vars ps) maxc)); [exact HRI|reflexivity].
+Qed.
+
+(* ---- parse_head ---- *)
+Definition hgo (l : lstate) (st : sstate) (cl pl : N) (out : bytes) (added : N) : cflow :=
+  let p := lp l in
+  let p' := set_core p (raw_start p + HEADER_LEN) cl pl st out (gap_start p) (buffer p) in
+  if negb (invars_ok p') then CPanic 31 else
+  CContinue (mkL p' (mkStatus (s_stream (lres l)) (s_end (lres l)) (s_output (lres l) + added) (s_dest (lres l))) (lcap l)).
+
+Definition ahgo (l : alstate) (st : sstate) (cl pl : N) (out : bytes) (added : N) : aflow :=
+  let a := al l in
+  AContinue (mkAL (a_set a (a_parsed a) (drop HEADER_LEN (a_raw a)) out cl pl st) (add_output (ares l) added) (acap l)).
+
+Lemma parse_head_unfold l :
+  parse_head l =
+  let p := lp l in
+  if negb (is_record_boundary p) then CPanic 30 else
+  let past_head := raw_start p + HEADER_LEN in
+  if free_start p <? past_head then CBreak l else
+  let head := slice (raw_start p) past_head (buffer p) in
+  match hdr_decode head with
+  | HBadType t =>
+    let id := be16 (nthN head 2) (nthN head 3) in
+    hgo l SSkip (be16 (nthN head 4) (nthN head 5)) (nthN head 6) (output p ++ unk_record t id) 16
+  | HBadVersion v => CErr l (EUnknownVersion v)
+  | HOk t id cl pl =>
+    let rid := r_id (sreq p) in
+    if is_input_stream t && (id =? rid) then
+      match cmp_input_streams (r_role (sreq p)) t (stream p) with
+      | None => CPanic 32
+      | Some Eq => if negb (cl =? 0) then hgo l SStream cl pl (output p) 0
+                   else CBreak (mkL p (mkStatus (s_stream (lres l)) true (s_output (lres l)) (s_dest (lres l))) (lcap l))
+      | Some Lt => hgo l SSkip cl pl (output p) 0
+      | Some Gt => CBreak (mkL p (mkStatus (s_stream (lres l)) true (s_output (lres l)) (s_dest (lres l))) (lcap l))
+      end
+    else if (t =? RT_AbortRequest) && (id =? rid) then CErr l EAbortRequest
+    else if (t =? RT_BeginRequest) && negb (id =? rid) then
+      hgo l SSkip cl pl (output p ++ end_record 0 PS_CantMpxConn id) 16
+    else if (t =? RT_GetValues) && hdr_is_management t id then hgo l (SValues 0) cl pl (output p) 0
+    else hgo l SSkip cl pl (output p) 0
+  end.
+Proof. reflexivity. Qed.
+
+Lemma aparse_head_unfold l :
+  aparse_head l =
+  let a := al l in
+  if negb (a_boundary a) then APanic 30 else
+  if len (a_raw a) <? HEADER_LEN then ABreak l else
+  let head := take HEADER_LEN (a_raw a) in
+  match hdr_decode head with
+  | HBadType t =>
+    let id := be16 (nthN head 2) (nthN head 3) in
+    ahgo l SSkip (be16 (nthN head 4) (nthN head 5)) (nthN head 6) (a_out a ++ unk_record t id) 16
+  | HBadVersion v => AErr l (EUnknownVersion v)
+  | HOk t id cl pl =>
+    let rid := r_id (a_req a) in
+    if is_input_stream t && (id =? rid) then
+      match cmp_input_streams (r_role (a_req a)) t (a_stream a) with
+      | None => APanic 32
+      | Some Eq => if negb (cl =? 0) then ahgo l SStream cl pl (a_out a) 0
+                   else ABreak (mkAL a (set_end (ares l)) (acap l))
+      | Some Lt => ahgo l SSkip cl pl (a_out a) 0
+      | Some Gt => ABreak (mkAL a (set_end (ares l)) (acap l))
+      end
+    else if (t =? RT_AbortRequest) && (id =? rid) then AErr l EAbortRequest
+    else if (t =? RT_BeginRequest) && negb (id =? rid) then
+      ahgo l SSkip cl pl (a_out a ++ end_record 0 PS_CantMpxConn id) 16
+    else if (t =? RT_GetValues) && hdr_is_management t id then ahgo l (SValues 0) cl pl (a_out a) 0
+    else ahgo l SSkip cl pl (a_out a) 0
+  end.
+Proof. reflexivity. Qed.
+
+(* what parse_head guarantees besides the simulation (k = bytes consumed by a continuing step) *)
+Definition head_post (k : N) (p : sp) (f : cflow) : Prop :=
+  match f with
+  | CContinue l' => RI (lp l') /\ raw_len (lp l') + k <= raw_len p /\ stream (lp l') = stream p
+  | CBreak l' | CErr l' _ => RI (lp l') /\ stream (lp l') = stream p
+  | CPanic n => n = 32 /\ ~ stream_ok p
+  end.
+
+Lemma hgo_sim l st cl pl out w added :
+  RI (lp l) -> HEADER_LEN <= raw_len (lp l) -> out = output (lp l) ++ w ->
+  ahgo (absl l) st cl pl (a_out (abs (lp l)) ++ w) added = absflow (hgo l st cl pl out added) /\
+  head_post HEADER_LEN (lp l) (hgo l st cl pl out added).
+Proof.
+  intros HRI Hlen E. pose proof HRI as (H1 & H2 & H3 & H4 & H5 & H6).
+  unfold hgo, ahgo, raw_len in *. unfold absl at 1 2 3. cbn [al ares acap]. set (p := lp l) in *.
+  set (p' := set_core p (raw_start p + HEADER_LEN) cl pl st out (gap_start p) (buffer p)).
+  assert (R' : RI p').
+  { subst p'. unfold RI, set_core.
+    cbn [buffer parsed_start gap_start raw_start free_start output output_start].
+    rewrite E. destruct (RI_output_app (output p) w (output_start p) H5 H6) as [O1 O2].
+    repeat split; try lia. exact O2. }
+  rewrite (RI_invars_ok p' R'). cbn [negb].
+  assert (A' : abs p' = a_set (abs p) (a_parsed (abs p)) (drop HEADER_LEN (a_raw (abs p))) (a_out (abs p) ++ w) cl pl st).
+  { subst p'. unfold abs, a_set, set_core, stream_buffer, raw_bytes, output_buffer.
+    cbn [buffer parsed_start gap_start raw_start free_start output output_start sreq stream payload_rem padding_rem sst].
+    cbn [a_B a_space a_parsed a_raw a_out a_req a_stream a_prem a_pad a_st].
+    rewrite drop_slice, E, drop_app_le by lia. reflexivity. }
+  unfold absflow, absl. cbn [lp lres lcap]. rewrite A'. split; [reflexivity|].
+  unfold head_post. cbn [lp]. split; [exact R'|]. subst p'. unfold raw_len, set_core.
+  cbn [free_start raw_start stream]. split; [lia|reflexivity].
+Qed.
+
+Lemma hgo_sim0 l st cl pl added :
+  RI (lp l) -> HEADER_LEN <= raw_len (lp l) ->
+  ahgo (absl l) st cl pl (a_out (abs (lp l))) added = absflow (hgo l st cl pl (output (lp l)) added) /\
+  head_post HEADER_LEN (lp l) (hgo l st cl pl (output (lp l)) added).
+Proof.
+  intros HRI Hlen. rewrite <- (app_nil_r (a_out (abs (lp l)))).
+  apply hgo_sim; [exact HRI|exact Hlen|symmetry; apply app_nil_r].
+Qed.
+
+Lemma cmp_none_not_ok role t e :
+  is_input_stream t = true -> cmp_input_streams role t e = None ->
+  match e with None => False | Some x => is_input_stream x <> true end.
+Proof.
+  intros Ht. unfold cmp_input_streams. destruct e as [x|]; [|discriminate].
+  rewrite Ht. cbn [negb orb]. destruct (is_input_stream x); cbn [negb]; [|intros _; discriminate].
+  destruct (t =? x); discriminate.
+Qed.
+
+Lemma parse_head_sim l : RI (lp l) ->
+  aparse_head (absl l) = absflow (parse_head l) /\
+  (is_record_boundary (lp l) = true -> head_post HEADER_LEN (lp l) (parse_head l)).
+Proof.
+  intros HRI. rewrite parse_head_unfold, aparse_head_unfold.
+  pose proof (hgo_sim0 l) as G0. pose proof (hgo_sim l) as Gw.
+  unfold absl in *. cbn [al ares acap] in *. unfold raw_len in *. set (p := lp l) in *. cbn zeta.
+  pose proof HRI as (H1 & H2 & H3 & H4 & H5 & H6).
+  change (a_boundary (abs p)) with (is_record_boundary p).
+  change (a_raw (abs p)) with (raw_bytes p). change (a_req (abs p)) with (sreq p).
+  change (a_stream (abs p)) with (stream p).
+  destruct (is_record_boundary p); cbn [negb]; [|split; [reflexivity|discriminate]].
+  rewrite (RI_len_raw p HRI).
+  assert (SELF : RI p /\ stream p = stream p) by (split; [exact HRI|reflexivity]).
+  destruct (N.ltb_spec (free_start p) (raw_start p + HEADER_LEN)) as [Hs|Hs];
+    destruct (N.ltb_spec (free_start p - raw_start p) HEADER_LEN) as [Hs'|Hs']; try lia.
+  { split; [reflexivity|intros _; exact SELF]. }
+  unfold raw_bytes. rewrite take_slice by lia.
+  set (head := slice (raw_start p) (raw_start p + HEADER_LEN) (buffer p)).
+  destruct (hdr_decode head) as [t id cl pl|v|t].
+  - destruct (is_input_stream t && (id =? r_id (sreq p))) eqn:E1.
+    + destruct (cmp_input_streams (r_role (sreq p)) t (stream p)) as [[| |]|] eqn:Ec.
+      * destruct (G0 SSkip cl pl 0 HRI Hs') as [Ga Gb]. split; [exact Ga|intros _; exact Gb].
+      * destruct (negb (cl =? 0)).
+        -- destruct (G0 SStream cl pl 0 HRI Hs') as [Ga Gb]. split; [exact Ga|intros _; exact Gb].
+        -- split; [reflexivity|intros _; exact SELF].
+      * split; [reflexivity|intros _; exact SELF].
+      * split; [reflexivity|intros _]. split; [reflexivity|].
+        apply andb_true_iff in E1 as [E1 _].
+        pose proof (cmp_none_not_ok _ _ _ E1 Ec) as Hn. unfold stream_ok.
+        destruct (stream p); [exact Hn|intros _; exact Hn].
+    + destruct ((t =? RT_AbortRequest) && (id =? r_id (sreq p))).
+      { split; [reflexivity|intros _; exact SELF]. }
+      destruct ((t =? RT_BeginRequest) && negb (id =? r_id (sreq p))).
+      { destruct (Gw SSkip cl pl _ (end_record 0 PS_CantMpxConn id) 16 HRI Hs' eq_refl) as [Ga Gb].
+        split; [exact Ga|intros _; exact Gb]. }
+      destruct ((t =? RT_GetValues) && hdr_is_management t id).
+      { destruct (G0 (SValues 0) cl pl 0 HRI Hs') as [Ga Gb]. split; [exact Ga|intros _; exact Gb]. }
+      destruct (G0 SSkip cl pl 0 HRI Hs') as [Ga Gb]. split; [exact Ga|intros _; exact Gb].
+  - split; [reflexivity|intros _; exact SELF].
+  - destruct (Gw SSkip (be16 (nthN head 4) (nthN head 5)) (nthN head 6) _
+                 (unk_record t (be16 (nthN head 2) (nthN head 3))) 16 HRI Hs' eq_refl) as [Ga Gb].
+    split; [exact Ga|intros _; exact Gb].
+Qed.
+
+(* ---- parse_iter ---- *)
+Definition after_pl (l : lstate) : cflow :=
+  let p := lp l in
+  if 0 <? padding_rem p then
+    if negb (payload_rem p =? 0) then CPanic 40 else
+    let raw_len := free_start p - raw_start p in
+    if raw_len <=? padding_rem p then
+      CBreak (mkL (set_core p (free_start p) (payload_rem p) (padding_rem p - raw_len) (sst p) (output p) (gap_start p) (buffer p))
+                  (lres l) (lcap l))
+    else
+      parse_head (mkL (set_core p (raw_start p + padding_rem p) (payload_rem p) 0 (sst p) (output p) (gap_start p) (buffer p))
+                      (lres l) (lcap l))
+  else parse_head l.
+
+Definition aafter_pl (l : alstate) : aflow :=
+  let a := al l in
+  if 0 <? a_pad a then
+    if negb (a_prem a =? 0) then APanic 40 else
+    let raw_len := len (a_raw a) in
+    if raw_len <=? a_pad a then
+      ABreak (mkAL (a_set a (a_parsed a) [] (a_out a) (a_prem a) (a_pad a - raw_len) (a_st a)) (ares l) (acap l))
+    else
+      aparse_head (mkAL (a_set a (a_parsed a) (drop (a_pad a) (a_raw a)) (a_out a) (a_prem a) 0 (a_st a)) (ares l) (acap l))
+  else aparse_head l.
+
+Lemma parse_iter_unfold l :
+  parse_iter maxc l =
+  if 0 <? payload_rem (lp l) then
+    match parse_payload maxc l with
+    | CContinue l' => after_pl l'
+    | x => x
+    end
+  else after_pl l.
+Proof. reflexivity. Qed.
+
+Lemma aparse_iter_unfold l :
+  aparse_iter maxc l =
+  if 0 <? a_prem (al l) then
+    match aparse_payload maxc l with
+    | AContinue l' => aafter_pl l'
+    | x => x
+    end
+  else aafter_pl l.
+Proof. reflexivity. Qed.
+
+Lemma stream_ok_eq p p' : stream p' = stream p -> stream_ok p' <-> stream_ok p.
+Proof. unfold stream_ok. intros ->. reflexivity. Qed.
+
+Lemma head_post_trans k p p2 f :
+  raw_len p2 <= raw_len p -> stream p2 = stream p -> head_post k p2 f -> head_post k p f.
+Proof.
+  intros Hl Hs. unfold head_post. destruct f as [l'|l'|l' e|n].
+  - intros (A & B & C). split; [exact A|]. split; [lia|congruence].
+  - intros (A & C). split; [exact A|congruence].
+  - intros (A & C). split; [exact A|congruence].
+  - intros (A & C). split; [exact A|]. intros D. apply C. apply (stream_ok_eq p p2 Hs). exact D.
+Qed.
+
+Lemma after_pl_sim l : RI (lp l) ->
+  aafter_pl (absl l) = absflow (after_pl l) /\
+  (payload_rem (lp l) = 0 -> head_post HEADER_LEN (lp l) (after_pl l)).
+Proof.
+  intros HRI. unfold after_pl, aafter_pl. unfold absl. cbn [al ares acap].
+  set (p := lp l) in *. cbn zeta.
+  pose proof HRI as (H1 & H2 & H3 & H4 & H5 & H6).
+  change (a_pad (abs p)) with (padding_rem p). change (a_prem (abs p)) with (payload_rem p).
+  change (a_raw (abs p)) with (raw_bytes p). change (a_st (abs p)) with (sst p).
+  rewrite (RI_len_raw p HRI).
+  destruct (N.ltb_spec 0 (padding_rem p)) as [Hp|Hp].
+  - destruct (N.eqb_spec (payload_rem p) 0) as [Hz|Hz]; cbn [negb];
+      [|split; [reflexivity|intros E; exfalso; exact (Hz E)]].
+    destruct (N.leb_spec (free_start p - raw_start p) (padding_rem p)) as [Hr|Hr].
+    + set (p' := set_core p (free_start p) (payload_rem p) (padding_rem p - (free_start p - raw_start p))
+                          (sst p) (output p) (gap_start p) (buffer p)).
+      assert (R' : RI p').
+      { subst p'. unfold RI, set_core.
+        cbn [buffer parsed_start gap_start raw_start free_start output output_start]. repeat split; try lia. exact H6. }
+      assert (A' : abs p' = a_set (abs p) (a_parsed (abs p)) [] (a_out (abs p)) (payload_rem p)
+                                  (padding_rem p - (free_start p - raw_start p)) (sst p)).
+      { subst p'. unfold abs, a_set, set_core, stream_buffer, raw_bytes, output_buffer.
+        cbn [buffer parsed_start gap_start raw_start free_start output output_start sreq stream payload_rem padding_rem sst].
+        cbn [a_B a_space a_parsed a_raw a_out a_req a_stream a_prem a_pad a_st].
+        rewrite (slice_nil (free_start p) (free_start p)) by lia. reflexivity. }
+      unfold absflow, absl. cbn [lp lres lcap]. rewrite A'. split; [reflexivity|].
+      intros _. unfold head_post. cbn [lp]. split; [exact R'|reflexivity].
+    + set (p2 := set_core p (raw_start p + padding_rem p) (payload_rem p) 0 (sst p) (output p) (gap_start p) (buffer p)).
+      assert (R2 : RI p2).
+      { subst p2. unfold RI, set_core.
+        cbn [buffer parsed_start gap_start raw_start free_start output output_start]. repeat split; try lia. exact H6. }
+      assert (A2 : a_set (abs p) (a_parsed (abs p)) (drop (padding_rem p) (raw_bytes p)) (a_out (abs p)) (payload_rem p) 0 (sst p)
+                   = abs p2).
+      { subst p2. unfold abs, a_set, set_core, stream_buffer, raw_bytes, output_buffer.
+        cbn [buffer parsed_start gap_start raw_start free_start output output_start sreq stream payload_rem padding_rem sst].
+        cbn [a_B a_space a_parsed a_raw a_out a_req a_stream a_prem a_pad a_st].
+        rewrite drop_slice. reflexivity. }
+      rewrite A2.
+      destruct (parse_head_sim (mkL p2 (lres l) (lcap l)) R2) as [Ga Gb].
+      unfold absl at 1 in Ga. cbn [lp lres lcap] in Ga, Gb. split; [exact Ga|].
+      intros _. apply (head_post_trans _ p p2).
+      * subst p2. unfold raw_len, set_core. cbn [free_start raw_start]. lia.
+      * reflexivity.
+      * apply Gb. subst p2. unfold is_record_boundary, set_core. cbn [payload_rem padding_rem]. rewrite Hz. reflexivity.
+  - destruct (parse_head_sim l HRI) as [Ga Gb]. fold p in Ga, Gb. unfold absl in Ga. split; [exact Ga|].
+    intros Hz. apply Gb. unfold is_record_boundary. rewrite Hz. replace (padding_rem p) with 0 by lia. reflexivity.
+Qed.
+
+Lemma parse_iter_sim l : RI (lp l) ->
+  aparse_iter maxc (absl l) = absflow (parse_iter maxc l) /\ head_post HEADER_LEN (lp l) (parse_iter maxc l).
+Proof.
+  intros HRI. rewrite parse_iter_unfold, aparse_iter_unfold.
+  change (a_prem (al (absl l))) with (payload_rem (lp l)).
+  destruct (N.ltb_spec 0 (payload_rem (lp l))) as [Hp|Hp].
+  - destruct (parse_payload_sim l HRI) as [Ga Gb]. rewrite Ga.
+    destruct (parse_payload maxc l) as [l'|l'|l' e|n]; unfold payload_post in Gb; cbn [absflow].
+    + destruct Gb as (R' & L' & S' & Z').
+      destruct (after_pl_sim l' R') as [Ha Hb]. split; [exact Ha|].
+      apply (head_post_trans _ (lp l) (lp l')); [exact L'|exact S'|apply Hb; exact Z'].
+    + split; [reflexivity|exact Gb].
+    + contradiction.
+    + contradiction.
+  - destruct (after_pl_sim l HRI) as [Ha Hb]. split; [exact Ha|apply Hb; lia].
+Qed.
+
+(* ---- the loop ---- *)
+Definition loop_post (fuel : nat) (p : sp) (f : cflow) : Prop :=
+  match f with
+  | CContinue _ => False
+  | CBreak l' | CErr l' _ => RI (lp l') /\ stream (lp l') = stream p
+  | CPanic n => (n = 32 /\ ~ stream_ok p) \/ (n = 99 /\ N.of_nat fuel <= raw_len p)
+  end.
+
+Lemma parse_loop_sim fuel : forall l, RI (lp l) ->
+  aparse_loop maxc fuel (absl l) = absflow (parse_loop maxc fuel l) /\
+  loop_post fuel (lp l) (parse_loop maxc fuel l).
+Proof.
+  induction fuel as [|f IH]; intros l HRI.
+  - cbn [aparse_loop parse_loop absflow loop_post]. split; [reflexivity|]. right. split; [reflexivity|lia].
+  - cbn [aparse_loop parse_loop]. change (a_raw (al (absl l))) with (raw_bytes (lp l)).
+    pose proof (RI_len_raw (lp l) HRI) as EL.
+    destruct (N.ltb_spec (raw_start (lp l)) (free_start (lp l))) as [Hlt|Hge].
+    + destruct (raw_bytes (lp l)) as [|x tl] eqn:Er; [rewrite len_nil in EL; lia|].
+      destruct (parse_iter_sim l HRI) as [Ga Gb]. rewrite Ga.
+      destruct (parse_iter maxc l) as [l'|l'|l' e|n]; unfold head_post in Gb; cbn [absflow].
+      * destruct Gb as (R' & L' & S'). destruct (IH l' R') as [Ha Hb]. split; [exact Ha|].
+        rewrite HEADER_LEN_val in L'. unfold loop_post in *.
+        destruct (parse_loop maxc f l') as [l''|l''|l'' e|n]; try exact Hb.
+        -- split; [apply Hb|]. rewrite <- S'. apply Hb.
+        -- split; [apply Hb|]. rewrite <- S'. apply Hb.
+        -- destruct Hb as [(Hn & Hs)|(Hn & Hf)].
+           ++ left. split; [exact Hn|]. intros D. apply Hs. apply (stream_ok_eq (lp l) (lp l') S'). exact D.
+           ++ right. split; [exact Hn|]. lia.
+      * split; [reflexivity|exact Gb].
+      * split; [reflexivity|exact Gb].
+      * split; [reflexivity|]. left. exact Gb.
+    + destruct (raw_bytes (lp l)) as [|x tl] eqn:Er; [|rewrite len_cons in EL; lia].
+      split; [reflexivity|]. cbn [loop_post]. split; [exact HRI|reflexivity].
+Qed.
+End Sim.
